@@ -576,7 +576,8 @@ def stabilizer_measure(gs_stb, ps_stb, gs_obs, ps_obs, r):
         p = 0 # pointer
         ga[:] = 0
         pa = 0
-        for j in range(2*N):
+        for jj in range(2*N):
+            j = (jj + r) % N if jj < N else jj # visit active stabilizers before standby ones
             if acq(gs_stb[j], gs_obs[k]): # find gs_stb[j] anticommute with gs_obs[k]
                 if update: # if gs_stb[j] is not the first anticommuting operator
                     # update gs_stb[j] to commute with gs_obs[k]
